@@ -26,6 +26,8 @@ type C06Case struct {
 	Buf    int    `json:"buf"`    // backend read size
 	PerOct bool   `json:"per_octet"`
 	Size   int64  `json:"size"` // MAIL SIZE= value
+	// SizeStr (kind "sizebig"): a declared size at the integer boundaries, as text
+	SizeStr string `json:"size_str,omitempty"`
 }
 
 // dataMessage returns a message of exactly m octets as the backend should see
@@ -67,6 +69,9 @@ func c06Run(c C06Case, limit int64) (*h.Obs, int, string) {
 	in.WriteString(hello(c.Mode))
 	nCmd := 0 // replies expected before the part under test
 	switch c.Kind {
+	case "sizebig":
+		fmt.Fprintf(&in, "MAIL FROM:<ok@a.example> SIZE=%s\r\nRCPT TO:<okprobe@x>\r\nNOOP\r\n", c.SizeStr)
+		nCmd = 2
 	case "size":
 		fmt.Fprintf(&in, "MAIL FROM:<ok@a.example> SIZE=%d\r\nRCPT TO:<okprobe@x>\r\nNOOP\r\n", c.Size)
 		nCmd = 2
@@ -101,7 +106,7 @@ func c06Run(c C06Case, limit int64) (*h.Obs, int, string) {
 	}
 	// every conversation ends with a second (chunked) and a third (DATA) transaction whose messages are exactly as large as the limit
 	// allows (chunked): the budget of a transaction must not survive it
-	if c.Kind != "size" && c.N >= 2 && c.N <= 100 {
+	if c.Kind != "size" && c.Kind != "sizebig" && c.N >= 2 && c.N <= 100 {
 		in.WriteString("RSET\r\nMAIL FROM:<ok@a2.example>\r\nRCPT TO:<ok@b2.example>\r\n")
 		// chunked whatever came before (BDAT keeps a per-transaction octet count on the connection), in two chunks
 		fmt.Fprintf(&in, "BDAT 1\r\ns")
@@ -152,6 +157,22 @@ func evalC06(c C06Case) *h.Finding {
 			return h.F("c06-backend-read-too-much", "%s: backend read %d octets", desc, len(e.Body))
 		}
 	}
+	if c.Kind == "sizebig" {
+		// far above any limit, at the boundaries of the integer types: refused (552, or 501 where the server does not
+		// parse numbers that large), the backend is not consulted and no transaction is opened
+		for _, e := range o.Trace {
+			if e.Kind == "Mail" || e.Kind == "Rcpt" {
+				return h.F("c06-size-consulted-backend", "%s: SIZE=%s is far above the limit but the backend was consulted: %s (replies %s)", desc, c.SizeStr, h.Calls(o.Trace), o.Codes())
+			}
+		}
+		if len(o.Replies) != 5 || o.Replies[2].Class() != 5 || o.Replies[3].Class() != 5 || o.Replies[4].Code != 250 {
+			return h.F("c06-size-reply", "%s: SIZE=%s: replies %s, want 220 250 5xx 5xx 250", desc, c.SizeStr, o.Codes())
+		}
+		if c.SizeStr == "4294967295" && o.Replies[2].Code != 552 {
+			return h.F("c06-size-reply", "%s: SIZE=%s is a 32-bit value above the limit: reply %s, want 552", desc, c.SizeStr, o.Replies[2].String())
+		}
+		return nil
+	}
 	over := false
 	switch c.Kind {
 	case "size":
@@ -169,7 +190,7 @@ func evalC06(c C06Case) *h.Finding {
 	}
 	codes := o.Codes()
 	// the second transaction (see c06Run): RSET MAIL RCPT [DATA 354] final NOOP, all positive
-	if c.Kind != "size" && c.N >= 2 && c.N <= 100 {
+	if c.Kind != "size" && c.Kind != "sizebig" && c.N >= 2 && c.N <= 100 {
 		nTail := 10 // RSET MAIL RCPT BDAT BDAT-LAST | MAIL RCPT DATA(354) final NOOP
 		if len(o.Replies) < nTail {
 			return h.F("c06-second-transaction", "%s: replies %s", desc, codes)
@@ -430,8 +451,8 @@ func C06(tier string) int {
 	if tier == "thorough" {
 		Ns = []int64{1, 2, 3, 5, 8, 13, 64, 4096, 4097}
 	}
-	run.Rule = fmt.Sprintf("limits N in %v x message sizes N-2..N+2 and 4N x {DATA (plain and dot-stuffed lines), every division into <=3 BDAT chunks incl. empty ones} x backend read sizes {1,3,N,4096} x {one segment, one octet per segment} x {SMTP, LMTP, LMTP per-recipient}; MAIL SIZE=s for s in {0,1,N-1,N,N+1,10N} for N and for no limit; BDAT with a declared size at the integer boundaries (2^32-1, 2^32, 2^63-1, 2^63, 2^64-100, 2^64-1, 2^64, 10^23) as first or second chunk, with and without LAST, followed by an over-limit LAST chunk. Plus EVERY message body over the class alphabet {'.',CR,LF,'a'} of <=%d octets (reader seam: read sizes {1,2,3,4096}) / <=%d octets (full server path, modes %v, read sizes {1,4096}) x EVERY limit 1..size+1 x {one segment, one octet per segment}, so that every octet pattern (end-marker look-alikes, dots, bare CR/LF) sits at every offset relative to the limit. Distinct by construction; non-trivial = size within 2 of the limit or above it. Oracle: backend octets <= N; over the limit: reader fails (no EOF), 552, probe RCPT refused; within: observation identical to the same conversation on a server without limit (differential).", Ns, map[bool]int{false: 7, true: 9}[tier == "thorough"], map[bool]int{false: 5, true: 6}[tier == "thorough"], map[bool][]string{false: {"smtp"}, true: {"smtp", "lmtp", "lmtp-rcpt"}}[tier == "thorough"])
-	run.Assumptions = []string{"message size = octets after dot-unstuffing, incl. the CRLF in front of the end marker (RFC 1870)", "the backend reads the message to the end and returns the reader's error (a backend that stops early and returns nil claims success itself)", "declared SIZE values >= 2^32 are outside the quantifier"}
+	run.Rule = fmt.Sprintf("limits N in %v x message sizes N-2..N+2 and 4N x {DATA (plain and dot-stuffed lines), every division into <=3 BDAT chunks incl. empty ones} x backend read sizes {1,3,N,4096} x {one segment, one octet per segment} x {SMTP, LMTP, LMTP per-recipient}; MAIL SIZE=s for s in {0,1,N-1,N,N+1,10N} for N and for no limit, and s at the integer boundaries (2^32-1, 2^32, 2^63-1, 2^63, 2^63+100, 2^64-1, 2^64, 10^23: refused, backend not consulted); BDAT with a declared size at the integer boundaries (2^32-1, 2^32, 2^63-1, 2^63, 2^64-100, 2^64-1, 2^64, 10^23) as first or second chunk, with and without LAST, followed by an over-limit LAST chunk. Plus EVERY message body over the class alphabet {'.',CR,LF,'a'} of <=%d octets (reader seam: read sizes {1,2,3,4096}) / <=%d octets (full server path, modes %v, read sizes {1,4096}) x EVERY limit 1..size+1 x {one segment, one octet per segment}, so that every octet pattern (end-marker look-alikes, dots, bare CR/LF) sits at every offset relative to the limit. Distinct by construction; non-trivial = size within 2 of the limit or above it. Oracle: backend octets <= N; over the limit: reader fails (no EOF), 552, probe RCPT refused; within: observation identical to the same conversation on a server without limit (differential).", Ns, map[bool]int{false: 7, true: 9}[tier == "thorough"], map[bool]int{false: 5, true: 6}[tier == "thorough"], map[bool][]string{false: {"smtp"}, true: {"smtp", "lmtp", "lmtp-rcpt"}}[tier == "thorough"])
+	run.Assumptions = []string{"message size = octets after dot-unstuffing, incl. the CRLF in front of the end marker (RFC 1870)", "the backend reads the message to the end and returns the reader's error (a backend that stops early and returns nil claims success itself)", "a declared SIZE >= 2^32 may be refused with 501 (number not parsed) instead of 552; it must be refused without consulting the backend"}
 	var cases []C06Case
 	seen := map[string]bool{}
 	add := func(c C06Case) {
@@ -480,6 +501,9 @@ func C06(tier string) int {
 					}
 				}
 			}
+			for _, big := range []string{"4294967295", "4294967296", "9223372036854775807", "9223372036854775808", "9223372036854775908", "18446744073709551615", "18446744073709551616", "99999999999999999999999"} {
+				add(C06Case{Kind: "sizebig", Mode: mode, N: N, SizeStr: big, Buf: 4096})
+			}
 			for _, lim := range []int64{N, 0} {
 				for _, s := range []int64{0, 1, N - 1, N, N + 1, 10 * N} {
 					if s >= 0 {
@@ -495,7 +519,7 @@ func C06(tier string) int {
 		}
 		c := cases[i]
 		f := evalC06(c)
-		near := c.Kind == "size" && c.Size >= c.N-2 || c.Kind != "size" && int64(c.M) >= c.N-2
+		near := c.Kind == "sizebig" || c.Kind == "size" && c.Size >= c.N-2 || c.Kind != "size" && int64(c.M) >= c.N-2
 		run.Eval(near)
 		if f != nil {
 			run.Violate("c06", c, f, func() *h.Finding { return evalC06(c) })
